@@ -126,7 +126,13 @@ def check(case):
 
     def test_frame(df, tag):
         nonlocal nt
-        cols = {v: np.asarray(df[v]).reshape(T, N).astype(int) for v in allv}
+        raw = {v: np.asarray(df[v], dtype=float).reshape(T, N) for v in allv}
+        for v in allv:
+            x = raw[v]
+            if not (np.isfinite(x).all() and (x == np.round(x)).all() and (x >= 0).all() and (x < spec.size(v)).all()):
+                msgs.append(f"{tag}: column {v} contains values that are not labels of its grid (0..{spec.size(v) - 1}), e.g. {x[~((x >= 0) & (x < spec.size(v)))][:3].tolist()}")
+                return
+        cols = {v: raw[v].astype(int) for v in allv}
         cell_ids = {}
         for t in range(T - 1):
             for s in stoch:
@@ -241,7 +247,7 @@ def check(case):
         out.status, out.reason = "violation", msgs[0]
         out.bucket = "draws:" + ("seed" if "seed" in msgs[0] and ("same seed" in msgs[0] or "changing the seed" in msgs[0]) else
                                  "zero_probability" if "which has probability 0" in msgs[0] else
-                                 "frequency" if "binomial" in msgs[0] else "independence")
+                                 "frequency" if "binomial" in msgs[0] else "invalid_label" if "not labels of its grid" in msgs[0] else "independence")
         return out
     out.sample = {"n_periods": T, "states": {k: list(v) for k, v in spec.states.items()}, "choices": {k: list(v) for k, v in spec.choices.items()},
                   "dependencies": {s: spec.functions[f"next_{s}"]["args"] for s in stoch},
